@@ -276,6 +276,8 @@ func VerifSolve3(coeff [4]float64) []float64 {
 	return geom.VerifSolve3(coeff)
 }
 
+var layoutOptsP1Greedy, layoutOptsP1DepthFirst = CycleBreakingGreedy, CycleBreakingDepthFirst
+
 // VerifUnit runs one inner function of the library on a synthetic state: the graph populated from source with
 // the given layer per node id. It returns a snapshot before and after. fn: "vbalance" | "normalize".
 func VerifUnit(fn string, source graph.Source, layers map[string]int) (before, after VerifSnap) {
@@ -290,6 +292,11 @@ func VerifUnit(fn string, source graph.Source, layers map[string]int) (before, a
 		phase2.VerifVbalance(G)
 	case "normalize":
 		phase2.VerifNormalize(G)
+	case "p1greedy":
+		// cycle breaking of one connected component without self-loops
+		layoutOptsP1Greedy.Process(G, ig.Params{})
+	case "p1dfs":
+		layoutOptsP1DepthFirst.Process(G, ig.Params{})
 	case "ns":
 		// the whole network-simplex layering of one connected acyclic component, default options
 		phase2.NetworkSimplex.Process(G, ig.Params{NetworkSimplexThoroughness: 28, NetworkSimplexBalance: ig.OptionNsBalanceV})
